@@ -397,6 +397,7 @@ fn probe(which: &'static str) -> Result<(), Failure> {
         name: n.into(),
         skipped: false,
         config: false,
+        compactable: false,
     };
     let (params, body, args): (Vec<ParamDecl>, Fields, Vec<Ty>) = match which {
         "rust-value:cow-wrapped-like-a-struct" => (
